@@ -12,6 +12,7 @@ use crate::syntax::SyntaxConfig;
 use crate::value::Value;
 
 const MAX_RECURSION: usize = 150;
+const MAX_NESTING: usize = 500;
 const RESERVED_NAMES: [&str; 8] = [
     "true", "True", "false", "False", "none", "None", "loop", "self",
 ];
@@ -195,6 +196,7 @@ struct Parser<'a> {
     #[cfg(feature = "multi_template")]
     blocks: BTreeSet<&'a str>,
     depth: usize,
+    deepest: usize,
 }
 
 macro_rules! with_recursion_guard {
@@ -205,8 +207,30 @@ macro_rules! with_recursion_guard {
                 "template exceeds maximum recursion limits",
             )));
         }
+        if $parser.deepest < $parser.depth {
+            $parser.deepest = $parser.depth;
+        }
         let rv = $expr;
         $parser.depth -= 1;
+        rv
+    }};
+}
+
+/// Evaluates `$expr` which builds an expression in a loop that nests what it
+/// parsed so far one level deeper per iteration (`a + b + c`, `a.b.c`, `a|b|c`).
+///
+/// Such loops do not recurse in the parser, but what walks the resulting tree
+/// does.  `deepest` is how deep the expressions parsed since the start of the
+/// chain reach (`depth` plus their height), every iteration of the loop calls
+/// [`Parser::nest`] to add one to it.  After the chain `deepest` covers it and
+/// what was parsed before it, but not the sum of the two.
+macro_rules! with_nesting_chain {
+    ($parser:expr, $expr:expr) => {{
+        let outer = mem::replace(&mut $parser.deepest, $parser.depth);
+        let rv = $expr;
+        if $parser.deepest < outer {
+            $parser.deepest = outer;
+        }
         rv
     }};
 }
@@ -215,20 +239,23 @@ macro_rules! binop {
     ($func:ident, $next:ident, { $($tok:tt)* }) => {
         fn $func(&mut self) -> Result<ast::Expr<'a>, Error> {
             let span = self.stream.current_span();
-            let mut left = ok!(self.$next());
-            loop {
-                let op = match ok!(self.stream.current()) {
-                    $($tok)*
-                    _ => break,
-                };
-                ok!(self.stream.next());
-                let right = ok!(self.$next());
-                left = ast::Expr::BinOp(Spanned::new(
-                    ast::BinOp { op, left, right, },
-                    self.stream.expand_span(span),
-                ));
-            }
-            Ok(left)
+            with_nesting_chain!(self, {
+                let mut left = ok!(self.$next());
+                loop {
+                    let op = match ok!(self.stream.current()) {
+                        $($tok)*
+                        _ => break,
+                    };
+                    ok!(self.stream.next());
+                    let right = ok!(self.$next());
+                    ok!(self.nest());
+                    left = ast::Expr::BinOp(Spanned::new(
+                        ast::BinOp { op, left, right, },
+                        self.stream.expand_span(span),
+                    ));
+                }
+                Ok(left)
+            })
         }
     };
 }
@@ -277,6 +304,7 @@ impl<'a> Parser<'a> {
             #[cfg(feature = "multi_template")]
             blocks: BTreeSet::new(),
             depth: 0,
+            deepest: 0,
         }
     }
 
@@ -311,31 +339,48 @@ impl<'a> Parser<'a> {
         self.stream.tokenizer.filename()
     }
 
+    /// Accounts for one more level of nesting in the current chain.
+    ///
+    /// See [`with_nesting_chain`].
+    #[inline(always)]
+    fn nest(&mut self) -> Result<(), Error> {
+        self.deepest += 1;
+        if self.deepest > MAX_NESTING {
+            return Err(syntax_error(Cow::Borrowed(
+                "template exceeds maximum recursion limits",
+            )));
+        }
+        Ok(())
+    }
+
     fn parse_ifexpr(&mut self) -> Result<ast::Expr<'a>, Error> {
         let mut span = self.stream.last_span();
-        let mut expr = ok!(self.parse_or());
-        loop {
-            if skip_token!(self, Token::Ident("if")) {
-                let expr2 = ok!(self.parse_or());
-                let expr3 = if skip_token!(self, Token::Ident("else")) {
-                    Some(ok!(with_recursion_guard!(self, self.parse_ifexpr())))
+        with_nesting_chain!(self, {
+            let mut expr = ok!(self.parse_or());
+            loop {
+                if skip_token!(self, Token::Ident("if")) {
+                    let expr2 = ok!(self.parse_or());
+                    let expr3 = if skip_token!(self, Token::Ident("else")) {
+                        Some(ok!(with_recursion_guard!(self, self.parse_ifexpr())))
+                    } else {
+                        None
+                    };
+                    ok!(self.nest());
+                    expr = ast::Expr::IfExpr(Spanned::new(
+                        ast::IfExpr {
+                            test_expr: expr2,
+                            true_expr: expr,
+                            false_expr: expr3,
+                        },
+                        self.stream.expand_span(span),
+                    ));
+                    span = self.stream.last_span();
                 } else {
-                    None
-                };
-                expr = ast::Expr::IfExpr(Spanned::new(
-                    ast::IfExpr {
-                        test_expr: expr2,
-                        true_expr: expr,
-                        false_expr: expr3,
-                    },
-                    self.stream.expand_span(span),
-                ));
-                span = self.stream.last_span();
-            } else {
-                break;
+                    break;
+                }
             }
-        }
-        Ok(expr)
+            Ok(expr)
+        })
     }
 
     binop!(parse_or, parse_and, {
@@ -350,71 +395,81 @@ impl<'a> Parser<'a> {
 
     fn parse_compare(&mut self) -> Result<ast::Expr<'a>, Error> {
         let span = self.stream.last_span();
-        let expr = ok!(self.parse_math1());
-        let mut ops = Vec::new();
-        loop {
-            let op = match ok!(self.stream.current()) {
-                Some((Token::Eq, _)) => ast::CompareOpKind::Eq,
-                Some((Token::Ne, _)) => ast::CompareOpKind::Ne,
-                Some((Token::Lt, _)) => ast::CompareOpKind::Lt,
-                Some((Token::Lte, _)) => ast::CompareOpKind::Lte,
-                Some((Token::Gt, _)) => ast::CompareOpKind::Gt,
-                Some((Token::Gte, _)) => ast::CompareOpKind::Gte,
-                Some((Token::Ident("in"), _)) => ast::CompareOpKind::In,
-                Some((Token::Ident("not"), _)) => {
-                    ok!(self.stream.next());
-                    expect_token!(self, Token::Ident("in"), "in");
-                    ast::CompareOpKind::NotIn
-                }
-                _ => break,
-            };
-            if !matches!(op, ast::CompareOpKind::NotIn) {
-                ok!(self.stream.next());
-            }
-            ops.push(ast::CompareOp {
-                op,
-                expr: ok!(self.parse_math1()),
-            });
-        }
-
-        Ok(match ops.len() {
-            0 => expr,
-            1 => {
-                let op = ops.pop().unwrap();
-                let (binop, negated) = match op.op {
-                    ast::CompareOpKind::Eq => (ast::BinOpKind::Eq, false),
-                    ast::CompareOpKind::Ne => (ast::BinOpKind::Ne, false),
-                    ast::CompareOpKind::Lt => (ast::BinOpKind::Lt, false),
-                    ast::CompareOpKind::Lte => (ast::BinOpKind::Lte, false),
-                    ast::CompareOpKind::Gt => (ast::BinOpKind::Gt, false),
-                    ast::CompareOpKind::Gte => (ast::BinOpKind::Gte, false),
-                    ast::CompareOpKind::In => (ast::BinOpKind::In, false),
-                    ast::CompareOpKind::NotIn => (ast::BinOpKind::In, true),
+        with_nesting_chain!(self, {
+            let expr = ok!(self.parse_math1());
+            let mut ops = Vec::new();
+            loop {
+                let op = match ok!(self.stream.current()) {
+                    Some((Token::Eq, _)) => ast::CompareOpKind::Eq,
+                    Some((Token::Ne, _)) => ast::CompareOpKind::Ne,
+                    Some((Token::Lt, _)) => ast::CompareOpKind::Lt,
+                    Some((Token::Lte, _)) => ast::CompareOpKind::Lte,
+                    Some((Token::Gt, _)) => ast::CompareOpKind::Gt,
+                    Some((Token::Gte, _)) => ast::CompareOpKind::Gte,
+                    Some((Token::Ident("in"), _)) => ast::CompareOpKind::In,
+                    Some((Token::Ident("not"), _)) => {
+                        ok!(self.stream.next());
+                        expect_token!(self, Token::Ident("in"), "in");
+                        ast::CompareOpKind::NotIn
+                    }
+                    _ => break,
                 };
-                let expr = ast::Expr::BinOp(Spanned::new(
-                    ast::BinOp {
-                        op: binop,
-                        left: expr,
-                        right: op.expr,
-                    },
-                    self.stream.expand_span(span),
-                ));
-                if negated {
-                    ast::Expr::UnaryOp(Spanned::new(
-                        ast::UnaryOp {
-                            op: ast::UnaryOpKind::Not,
-                            expr,
+                if !matches!(op, ast::CompareOpKind::NotIn) {
+                    ok!(self.stream.next());
+                }
+                ops.push(ast::CompareOp {
+                    op,
+                    expr: ok!(self.parse_math1()),
+                });
+            }
+
+            // a comparison nests its operands one level deeper (two if negated)
+            if !ops.is_empty() {
+                ok!(self.nest());
+                if ops.len() == 1 && matches!(ops[0].op, ast::CompareOpKind::NotIn) {
+                    ok!(self.nest());
+                }
+            }
+
+            Ok(match ops.len() {
+                0 => expr,
+                1 => {
+                    let op = ops.pop().unwrap();
+                    let (binop, negated) = match op.op {
+                        ast::CompareOpKind::Eq => (ast::BinOpKind::Eq, false),
+                        ast::CompareOpKind::Ne => (ast::BinOpKind::Ne, false),
+                        ast::CompareOpKind::Lt => (ast::BinOpKind::Lt, false),
+                        ast::CompareOpKind::Lte => (ast::BinOpKind::Lte, false),
+                        ast::CompareOpKind::Gt => (ast::BinOpKind::Gt, false),
+                        ast::CompareOpKind::Gte => (ast::BinOpKind::Gte, false),
+                        ast::CompareOpKind::In => (ast::BinOpKind::In, false),
+                        ast::CompareOpKind::NotIn => (ast::BinOpKind::In, true),
+                    };
+                    let expr = ast::Expr::BinOp(Spanned::new(
+                        ast::BinOp {
+                            op: binop,
+                            left: expr,
+                            right: op.expr,
                         },
                         self.stream.expand_span(span),
-                    ))
-                } else {
-                    expr
+                    ));
+                    if negated {
+                        ast::Expr::UnaryOp(Spanned::new(
+                            ast::UnaryOp {
+                                op: ast::UnaryOpKind::Not,
+                                expr,
+                            },
+                            self.stream.expand_span(span),
+                        ))
+                    } else {
+                        expr
+                    }
                 }
-            }
-            _ => ast::Expr::Compare(Spanned::new(
-                ast::Compare { expr, ops },
-                self.stream.expand_span(span),
-            )),
+                _ => ast::Expr::Compare(Spanned::new(
+                    ast::Compare { expr, ops },
+                    self.stream.expand_span(span),
+                )),
+            })
         })
     }
 
@@ -440,11 +495,13 @@ impl<'a> Parser<'a> {
 
     fn parse_unary(&mut self) -> Result<ast::Expr<'a>, Error> {
         let span = self.stream.current_span();
-        let mut expr = ok!(self.parse_unary_only());
-        // the arguments of calls, filters and tests and subscripts are
-        // expressions that do not go through `parse_primary`.
-        expr = ok!(with_recursion_guard!(self, self.parse_postfix(expr, span)));
-        with_recursion_guard!(self, self.parse_filter_expr(expr))
+        with_nesting_chain!(self, {
+            let mut expr = ok!(self.parse_unary_only());
+            // the arguments of calls, filters and tests and subscripts are
+            // expressions that do not go through `parse_primary`.
+            expr = ok!(with_recursion_guard!(self, self.parse_postfix(expr, span)));
+            with_recursion_guard!(self, self.parse_filter_expr(expr))
+        })
     }
 
     fn parse_postfix(
@@ -542,6 +599,7 @@ impl<'a> Parser<'a> {
                 }
                 _ => break,
             }
+            ok!(self.nest());
             span = next_span;
         }
         Ok(expr)
@@ -616,8 +674,10 @@ impl<'a> Parser<'a> {
                             | Token::Ident("is")
                     ) {
                         let span = self.stream.current_span();
-                        let mut expr = ok!(self.parse_unary_only());
-                        expr = ok!(self.parse_postfix(expr, span));
+                        let expr = ok!(with_nesting_chain!(self, {
+                            let expr = ok!(self.parse_unary_only());
+                            self.parse_postfix(expr, span)
+                        }));
                         vec![ast::CallArg::Pos(expr)]
                     } else {
                         Vec::new()
@@ -627,6 +687,7 @@ impl<'a> Parser<'a> {
                         self.stream.expand_span(span),
                     ));
                     if negated {
+                        ok!(self.nest());
                         expr = ast::Expr::UnaryOp(Spanned::new(
                             ast::UnaryOp {
                                 op: ast::UnaryOpKind::Not,
@@ -638,6 +699,7 @@ impl<'a> Parser<'a> {
                 }
                 _ => break,
             }
+            ok!(self.nest());
         }
         Ok(expr)
     }
@@ -916,16 +978,21 @@ impl<'a> Parser<'a> {
         }
         let mut rv = ast::Expr::Var(ast::Spanned::new(ast::Var { id }, span));
         if dotted {
-            while skip_token!(self, Token::Dot) {
-                let (attr, span) = expect_token!(self, Token::Ident(name) => name, "identifier");
-                rv = ast::Expr::GetAttr(ast::Spanned::new(
-                    ast::GetAttr {
-                        expr: rv,
-                        name: attr,
-                    },
-                    span,
-                ));
-            }
+            return with_nesting_chain!(self, {
+                while skip_token!(self, Token::Dot) {
+                    let (attr, span) =
+                        expect_token!(self, Token::Ident(name) => name, "identifier");
+                    ok!(self.nest());
+                    rv = ast::Expr::GetAttr(ast::Spanned::new(
+                        ast::GetAttr {
+                            expr: rv,
+                            name: attr,
+                        },
+                        span,
+                    ));
+                }
+                Ok(rv)
+            });
         }
         Ok(rv)
     }
@@ -1170,27 +1237,29 @@ impl<'a> Parser<'a> {
     fn parse_filter_chain(&mut self) -> Result<ast::Expr<'a>, Error> {
         let mut filter = None;
 
-        while !matches_token!(self, Token::BlockEnd) {
-            if filter.is_some() {
-                expect_token!(self, Token::Pipe, "`|`");
+        with_nesting_chain!(self, {
+            while !matches_token!(self, Token::BlockEnd) {
+                if filter.is_some() {
+                    expect_token!(self, Token::Pipe, "`|`");
+                }
+                let (name, span) = ok!(self.parse_filter_test_name());
+                let args = if matches_token!(self, Token::ParenOpen) {
+                    ok!(self.parse_args())
+                } else {
+                    Vec::new()
+                };
+                ok!(self.nest());
+                filter = Some(ast::Expr::Filter(Spanned::new(
+                    ast::Filter {
+                        name,
+                        expr: filter,
+                        args,
+                    },
+                    self.stream.expand_span(span),
+                )));
             }
-            let (name, span) = ok!(self.parse_filter_test_name());
-            let args = if matches_token!(self, Token::ParenOpen) {
-                ok!(self.parse_args())
-            } else {
-                Vec::new()
-            };
-            filter = Some(ast::Expr::Filter(Spanned::new(
-                ast::Filter {
-                    name,
-                    expr: filter,
-                    args,
-                },
-                self.stream.expand_span(span),
-            )));
-        }
-
-        filter.ok_or_else(|| syntax_error(Cow::Borrowed("expected a filter")))
+            filter.ok_or_else(|| syntax_error(Cow::Borrowed("expected a filter")))
+        })
     }
 
     fn parse_filter_block(&mut self) -> Result<ast::FilterBlock<'a>, Error> {
